@@ -49,6 +49,8 @@ type Scenario struct {
 	Heights       []HeightSpec `json:"heights"` // Heights[i] describes DA height Start+i
 	// Below is a genuine blob placed below the start height (must never be examined).
 	Below bool `json:"below,omitempty"`
+	// CustomPayload: the chain signs a non-default payload (ManagerOptions.SignaturePayloadProvider).
+	CustomPayload bool `json:"custom_payload,omitempty"`
 }
 
 func genOutcomes(t *rapid.T) []world.FetchOutcome {
@@ -95,6 +97,7 @@ func gen(t *rapid.T) Scenario {
 		sc.Heights[i].JunkLast = rapid.Bool().Draw(t, "junklast")
 	}
 	sc.Below = sc.Start > 0 && rapid.Bool().Draw(t, "below")
+	sc.CustomPayload = rapid.IntRange(0, 2).Draw(t, "custompayload") == 0
 	return sc
 }
 
@@ -145,7 +148,7 @@ func run(sc Scenario, dir string) world.Verdict {
 	return sw.InBubble(func() world.Verdict {
 		root, _ := os.MkdirTemp(dir, "c09")
 		defer os.RemoveAll(root)
-		c, err := fw.BuildChain(world.NodeOpts{ChainID: "c09-chain", InitialHeight: sc.InitialHeight, RootDir: root + "/p"}, sc.Chain)
+		c, err := fw.BuildChain(world.NodeOpts{ChainID: "c09-chain", InitialHeight: sc.InitialHeight, RootDir: root + "/p", CustomPayload: sc.CustomPayload}, sc.Chain)
 		if err != nil {
 			return world.Fail("C09/chain", "cannot build the proposer chain: %v", err)
 		}
@@ -368,6 +371,9 @@ func run(sc Scenario, dir string) world.Verdict {
 		}
 		if successAfterFailure {
 			ls = append(ls, "success-after-failure")
+		}
+		if sc.CustomPayload {
+			ls = append(ls, "custom-signature-payload")
 		}
 		return world.OK(successAfterFailure && junkNextToGenuine && multiChunk, ls...)
 	})
